@@ -527,6 +527,11 @@ func ZZ_C08_memdb_fanout() {
 		zzAssert(art.Set(keys[i], vals[i]) == nil && rbt.Set(keys[i], vals[i]) == nil, "fanout.setup")
 	}
 	x := zzU8("x")
+	if n >= 16 {
+		// node48 / node256 index their tables by the key byte: a symbolic byte would make the
+		// present bitmap symbolic and every later bitmap scan a solver problem. Enumerate it.
+		x = uint8(zzConc(uint64(x)))
+	}
 	newKey, newVal := []byte{p, x}, []byte{zzU8("v"), 0xEE}
 	staged := zzChoice("staged", 2) == 1
 	undo := false
